@@ -6,8 +6,8 @@
    Model/Once.v (syncutil.Once), tied to the Go code by the correspondence run. *)
 From Coq Require Import Sorting.Sorted Sorting.Permutation.
 From Oras Require Import Base.Prelude Generated.GC16
-  Model.Scopes Model.Challenge Model.AuthClient Model.Once Model.CacheSet Model.OnceSlot
-  Proofs.Scopes Proofs.ScopesIdem Proofs.AuthClient Proofs.AuthHistory Proofs.Once Proofs.CacheSet Proofs.OnceSlot.
+  Model.Scopes Model.Challenge Model.AuthClient Model.Once Model.CacheSet Model.OnceSlot Model.AuthConc
+  Proofs.Scopes Proofs.ScopesIdem Proofs.AuthClient Proofs.AuthHistory Proofs.Once Proofs.CacheSet Proofs.OnceSlot Proofs.AuthConc.
 
 (* ================= scope sets: the canonical cache key ================= *)
 
@@ -414,4 +414,57 @@ Example C16_once_slot_example :
   once_slot_final [SEnter 1; SEnter 2; SCtxDone 2; STake 1 0; SAct 1; SEnter 3; SAct 1; SAct 1;
                    STake 3 1; SAct 3; SAct 3; SAct 3; SAct 3; SEnter 4; SReadClosed 4 0; SAct 4] = Some SClosed
   /\ once_slot_final [SEnter 1; STake 1 0; SEnter 2; STake 2 0] = None.
+Proof. vm_compute. auto. Qed.
+
+(* ================= Client.Do under concurrency ================= *)
+
+(* one call, whatever the cache tells it (its three reads are oracles that answer
+   like SOME host-tainted cache): it sends only what it may, and what it writes
+   into the cache is a token of its own host *)
+Theorem C16_call_guarantee :
+  forall parse clean cf rq osch otok1 otok2 script,
+    (forall t, otok1 = Some t -> match osch with Some s => tok_fits (rq_host rq) s t | None => True end) ->
+    (forall k t, otok2 k = Some t -> tok_fits (rq_host rq) SchBearer t) ->
+    let '(evs, op, r) := do_request_rd clean parse cf rq osch otok1 otok2 script in
+    trace_ok_from parse (rq_host rq) [] evs /\ op_fits (rq_host rq) op.
+Proof. exact do_request_rd_ok. Qed.
+Print Assumptions C16_call_guarantee.
+
+(* the sequential model is the special case: all reads see one cache and the write
+   is applied at once *)
+Theorem C16_sequential_is_special_case :
+  forall parse clean cf c rq script,
+    do_request clean parse cf c rq script =
+    let osch := rd_scheme (cf_flavour cf) c rq in
+    let '(evs, op, r) :=
+      do_request_rd clean parse cf rq osch (rd_tok1 clean (cf_flavour cf) c rq osch)
+                    (rd_tok2 (cf_flavour cf) c rq) script in
+    (evs, apply_op (cf_flavour cf) c (rq_host rq) op, r).
+Proof. exact do_request_rd_eq. Qed.
+Print Assumptions C16_sequential_is_special_case.
+
+(* any number of concurrent calls over one shared cache, every interleaving of
+   their cache reads (each sees the cache of its own moment) and of their
+   completions: every call's sends are [trace_ok] for the host it addressed, and
+   the cache stays host-tainted *)
+Theorem C16_concurrent_no_cross_host :
+  forall parse clean cf tr y,
+    yrun clean parse cf yinit tr = Some y ->
+    (forall j h evs r, In (j, (h, evs, r)) (y_out y) -> trace_ok parse h evs) /\
+    (forall h s k t, cc_get_token (y_cache y) h s k = Some t -> taint t = h).
+Proof. exact concurrent_no_cross_host. Qed.
+Print Assumptions C16_concurrent_no_cross_host.
+
+Example C16_concurrent_example :
+  let cf := mkConfig FShared false (lookup_cred [(0, mkCred true true false false); (1, mkCred true true false false)]) in
+  let ch := b "Bearer realm=""https://auth.example/token"",service=""s"",scope=""repository:a:pull""" in
+  match yrun clean_scopes parse_total cf yinit
+          [YStart 1 (mkReq 0 [] [] BNone) [A401 ch; ATok 5; AOk];
+           YStart 2 (mkReq 0 [] [] BNone) [A401 ch; ATok 6; AOk];
+           YStart 3 (mkReq 1 [] [] BNone) [AOk];
+           YLook 1 1; YLook 2 1; YLook 2 2; YFinish 1; YLook 2 3; YFinish 2; YFinish 3] with
+  | Some y => map (fun o => (fst o, snd (snd o))) (y_out y) = [(3, RResp false); (2, RResp false); (1, RResp false)]
+              /\ cc_get_token (y_cache y) 0 SchBearer (b "repository:a:pull") = Some (SIssued 0 6)
+  | None => False
+  end.
 Proof. vm_compute. auto. Qed.
